@@ -134,6 +134,35 @@ fn c09_gearset_table_positions() {
     core::mem::forget((list, table));
 }
 
+/// C17: a gear-set record with an item in ANY of the 14 on-disk slots converts without panicking,
+/// and the occupied slot is kept.  Positions are enumerated concretely (a symbolic position makes
+/// the hash-map key, and with it the probe sequence, symbolic: out of memory); the id is symbolic.
+fn gear_slot_position(occupied: usize) {
+    let id: u32 = kani::any();
+    kani::assume(id != 0);
+    let mut slots: [GearSlot; 14] = Default::default();
+    slots[occupied].id = id;
+    let map = convert_from_slots(slots);
+    assert_eq!(map.len(), 1);
+    core::mem::forget(map);
+}
+#[kani::proof]
+#[kani::unwind(20)]
+#[kani::stub(std::hash::RandomState::new, fixed_random_state)]
+fn c17_gear_slots_positions_0_to_6() {
+    let mut p = 0;
+    while p < 7 { gear_slot_position(p); p += 1; }
+    kani::cover!(true);
+}
+#[kani::proof]
+#[kani::unwind(20)]
+#[kani::stub(std::hash::RandomState::new, fixed_random_state)]
+fn c17_gear_slots_positions_7_to_13() {
+    let mut p = 7;
+    while p < 14 { gear_slot_position(p); p += 1; }
+    kani::cover!(true);
+}
+
 #[kani::proof]
 fn c09g_pipeline_witness() {
     let id: u32 = kani::any();
